@@ -24,6 +24,8 @@ P = 2**256 - 2**32 - 977
 N = 0xFFFFFFFFFFFFFFFFFFFFFFFFFFFFFFFEBAAEDCE6AF48A03BBFD25E8CD0364141
 MOD = {"field": P, "scalar": N}
 M64 = 2**64 - 1
+ATTEMPT_TIMEOUT = float(os.environ.get("CARRYCOV_ATTEMPT_TIMEOUT", "20"))
+MAX_ATTEMPTS = int(os.environ.get("CARRYCOV_MAX_ATTEMPTS", "10"))
 MULOP = {"zero": 0, "one": 1, "top_bit_only": 1 << 63, "all_ones": M64}
 UNCONSTRAINED = {"Reduce", "Selectznz", "CMove", "cmovznzU64"}
 GOENV = dict(os.environ, GOFLAGS="-mod=mod", GOPROXY="off", GOSUMDB="off", GOTOOLCHAIN="local")
@@ -185,7 +187,20 @@ def rand_value(rng, mod, free):
     return rng.randrange(top)
 
 
+def apply_pins(prog, inp):
+    for (name, idx), v in (prog.get("pinned") or {}).items():
+        if isinstance(inp.get(name), list):
+            inp[name][idx] = v
+        else:
+            inp[name] = v
+    return inp
+
+
 def rand_inputs(prog, rng):
+    return apply_pins(prog, _rand_inputs(prog, rng))
+
+
+def _rand_inputs(prog, rng):
     mod = MOD[prog["pkg"]]
     free = prog["func"] in UNCONSTRAINED
     out = {}
@@ -325,12 +340,13 @@ def z3_solve(args):
     muls = sum(1 for x in need if prog["nodes"][x]["op"] == "mul64")
     t0 = time.time()
     res = "unknown"
+    pinned = dict(prog.get("pinned") or {})
     if muls <= 6:
-        res, inp = _z3_attempt(prog, t, need, {}, timeout)
+        res, inp = _z3_attempt(prog, t, need, pinned, timeout)
         if res in ("sat", "unsat"):
             return (prog["pkg"], prog["func"], t, res, time.time() - t0, inp)
     rng = random.Random(hash((prog["pkg"], prog["func"]) + tuple(t)) & 0xffffffff)
-    keys = sorted({(prog["nodes"][x]["v"], prog["nodes"][x].get("i", 0)) for x in need if prog["nodes"][x]["op"] == "input"})
+    keys = sorted({(prog["nodes"][x]["v"], prog["nodes"][x].get("i", 0)) for x in need if prog["nodes"][x]["op"] == "input"} - set(pinned))
     arrs = {d["name"]: d for d in prog["inputs"]}
     if not keys:
         return (prog["pkg"], prog["func"], t, res, time.time() - t0, None)
@@ -340,7 +356,7 @@ def z3_solve(args):
     attempts = 0
     for freeset in choices:
         for rep in range(2):
-            if attempts >= 10 or time.time() - t0 > 6 * timeout:
+            if attempts >= MAX_ATTEMPTS or time.time() - t0 > 6 * timeout:
                 return (prog["pkg"], prog["func"], t, "unknown", time.time() - t0, None)
             attempts += 1
             base = rand_inputs(prog, rng)
@@ -357,7 +373,8 @@ def z3_solve(args):
                         fixed[(d["name"], 3)] = rng.randrange(0, M64 - 1)
             for k in freeset:
                 fixed.pop(k, None)
-            r, inp = _z3_attempt(prog, t, need, fixed, min(timeout, 20))
+            fixed.update(pinned)
+            r, inp = _z3_attempt(prog, t, need, fixed, min(timeout, ATTEMPT_TIMEOUT))
             if r == "sat":
                 return (prog["pkg"], prog["func"], t, "sat", time.time() - t0, inp)
     return (prog["pkg"], prog["func"], t, "unknown", time.time() - t0, None)
@@ -374,7 +391,105 @@ def valid(prog, inp):
     return True
 
 
-def generate(repo, budget, z3_timeout, workers, seed, log=lambda *a: None, prev=None, max_muls=10**9):
+def specialise(progs):
+    """The word-level functions as the 48-byte wide reduction uses them (v = a + b * 2^192, a, b < 2^192):
+    ToMontgomery of a value below 2^192, and Mul by the CONSTANT 2^192 (in stored form).  Inputs found for these are
+    turned into 48-byte strings by wide_entries()."""
+    import copy
+    out = []
+    for p in progs:
+        if p["func"] == "Mul" and len(p["inputs"]) == 2:
+            q = copy.deepcopy(p)
+            q["func"] = "Mul@two192"
+            c = limbs((pow(2, 192, MOD[p["pkg"]]) << 256) % MOD[p["pkg"]])
+            q["pinned"] = {(p["inputs"][1]["name"], i): c[i] for i in range(4)}
+            out.append(q)
+        if p["func"] == "ToMontgomery" and len(p["inputs"]) == 1:
+            q = copy.deepcopy(p)
+            q["func"] = "ToMontgomery@below2^192"
+            q["pinned"] = {(p["inputs"][0]["name"], 3): 0}
+            out.append(q)
+    return out
+
+
+def lift_below(low, bits, mod, bound_bits=192):
+    """u with B = low + 2^bits * u < mod and B * 2^-256 mod `mod` < 2^bound_bits, or None.
+    (c + u K) mod m < 2^bound with u < U: a closest-vector problem in the lattice {(u, uK - jm)}, dimension 2:
+    Lagrange reduction and Babai rounding on exact integers / fractions."""
+    from fractions import Fraction
+    rinv = pow(2, -256, mod)
+    c = low * rinv % mod
+    K = (1 << bits) * rinv % mod
+    U = (mod - low) >> bits
+    if U <= 0:
+        return None
+    ubits = U.bit_length()
+    s1 = 1 << max(0, bound_bits - ubits)     # scale the first coordinate so that the box is about square
+    s2 = 1 << max(0, ubits - bound_bits)
+    v1, v2 = (s1, K * s2), (0, mod * s2)
+    def n2(v): return v[0] * v[0] + v[1] * v[1]
+    while True:                                # Lagrange / Gauss reduction
+        if n2(v1) > n2(v2):
+            v1, v2 = v2, v1
+        mu = Fraction(v1[0] * v2[0] + v1[1] * v2[1], n2(v1))
+        k = round(mu)
+        if k == 0:
+            break
+        v2 = (v2[0] - k * v1[0], v2[1] - k * v1[1])
+    tx, ty = (U // 2) * s1, ((1 << (bound_bits - 1)) - c) * s2
+    det = v1[0] * v2[1] - v1[1] * v2[0]
+    if det == 0:
+        return None
+    al = Fraction(tx * v2[1] - ty * v2[0], det)
+    be = Fraction(v1[0] * ty - v1[1] * tx, det)
+    for da in (0, -1, 1, -2, 2):
+        for db in (0, -1, 1, -2, 2):
+            a, b = round(al) + da, round(be) + db
+            u = (a * v1[0] + b * v2[0]) // s1
+            if 0 <= u < U:
+                B = low + (u << bits)
+                if B < mod and B * rinv % mod < (1 << bound_bits):
+                    return B
+    return None
+
+
+def wide_entries(progs, corpus, rng):
+    """48-byte strings  b || a  (v = b * 2^192 + a) built from the inputs found for the specialised programs."""
+    out = []
+    byname = {(p["pkg"], p["func"]): p for p in progs}
+    for e in corpus:
+        prog = byname.get((e["pkg"], e["func"]))
+        if prog is None or "@" not in e["func"]:
+            continue
+        mod = MOD[e["pkg"]]
+        name = prog["inputs"][0]["name"]
+        ls = e["inputs"][name]
+        ls = [int(x, 16) if isinstance(x, str) else x for x in ls]
+        if e["func"].startswith("ToMontgomery@"):
+            v = sum(x << (64 * i) for i, x in enumerate(ls[:3]))
+            other = rng.randrange(1 << 192)
+            for b, a in ((v, other), (other, v)):
+                out.append({"pkg": e["pkg"], "func": "Wide48", "how": e["how"] + " via " + e["func"], "targets": e["targets"],
+                            "inputs": {"data": (b.to_bytes(24, "big") + a.to_bytes(24, "big")).hex()}})
+        else:
+            # which limbs of the stored operand does the target depend on?  keep those, lift the rest
+            top = 0
+            for t in e["targets"][:1]:
+                pass
+            need_top = e.get("top_limb", 3)
+            low_bits = 64 * (need_top + 1)
+            low = sum(x << (64 * i) for i, x in enumerate(ls)) & ((1 << low_bits) - 1)
+            B = lift_below(low, low_bits, mod) if low_bits < 256 else None
+            if B is None:
+                continue
+            b = B * pow(2, -256, mod) % mod
+            a = rng.randrange(1 << 192)
+            out.append({"pkg": e["pkg"], "func": "Wide48", "how": e["how"] + " via " + e["func"] + ", lifted", "targets": e["targets"],
+                        "inputs": {"data": (b.to_bytes(24, "big") + a.to_bytes(24, "big")).hex()}})
+    return out
+
+
+def generate(repo, budget, z3_timeout, workers, seed, log=lambda *a: None, prev=None, max_muls=10**9, kinds=None, only=None):
     ex = extract(repo)
     settled = set()   # (pkg.func, "site:kind:name") already sat / unsat in an earlier run on the SAME programs
     prev_corpus = []
@@ -394,6 +509,7 @@ def generate(repo, budget, z3_timeout, workers, seed, log=lambda *a: None, prev=
                     settled.add((k, t))
         prev_corpus = [e for e in pd["corpus"] if e["how"].startswith("z3")]
     progs = [p for p in ex["programs"] if p.get("sites")]
+    progs += specialise(progs)
     rng = random.Random(seed)
     corpus, stats, jobs = [], {}, []
     for prog in progs:
@@ -433,7 +549,7 @@ def generate(repo, budget, z3_timeout, workers, seed, log=lambda *a: None, prev=
                 muls += 1
             st.extend(prog["nodes"][x].get("a", []))
         return muls
-    jobs = [j for j in jobs if cone(j) <= max_muls]
+    jobs = [j for j in jobs if cone(j) <= max_muls and (not kinds or j[1][2] in kinds) and (not only or only in j[0]["func"])]
     jobs.sort(key=cone)
     t_end = time.time() + budget
     solved_for = {}
@@ -451,11 +567,16 @@ def generate(repo, budget, z3_timeout, workers, seed, log=lambda *a: None, prev=
                 prog = next(p for p in progs if p["pkg"] == pkg and p["func"] == fn)
                 if res == "sat" and valid(prog, inp) and holds(prog, ceval(prog, inp), t):
                     stats[key]["by_z3"] += 1
-                    corpus.append({"pkg": pkg, "func": fn, "inputs": inp, "how": "z3 %.1fs" % dt,
-                                   "targets": [tid(prog, t)]})
+                    ent = {"pkg": pkg, "func": fn, "inputs": inp, "how": "z3 %.1fs" % dt, "targets": [tid(prog, t)]}
+                    if "@two192" in fn:   # the highest limb of the free operand that the target depends on
+                        nm = prog["inputs"][0]["name"]
+                        ent["top_limb"] = max([prog["nodes"][x].get("i", 0) for x in _cone(prog, t)
+                                               if prog["nodes"][x]["op"] == "input" and prog["nodes"][x]["v"] == nm] or [3])
+                    corpus.append(ent)
                 solved_for.setdefault(key, []).append((tid(prog, t), res, round(dt, 1)))
+    corpus += wide_entries(progs, corpus + prev_corpus, rng)
     for e in corpus:   # JSON: limbs as hex strings
-        e["inputs"] = {k: ([hex(x) for x in v] if isinstance(v, list) else hex(v)) for k, v in e["inputs"].items()}
+        e["inputs"] = {k: ([hex(x) for x in v] if isinstance(v, list) else (v if isinstance(v, str) else hex(v))) for k, v in e["inputs"].items()}
     for e in prev_corpus:
         corpus.append(e)
         if e["pkg"] + "." + e["func"] in stats:
@@ -480,9 +601,11 @@ if __name__ == "__main__":
     ap.add_argument("--workers", type=int, default=16)
     ap.add_argument("--seed", type=int, default=1)
     ap.add_argument("--prev", default=None)
+    ap.add_argument("--only", default="", help="only functions whose name contains this go to z3")
+    ap.add_argument("--kinds", default="", help="only these target names (comma-separated) go to z3")
     ap.add_argument("--max-muls", type=int, default=10**9, help="only hand z3 targets whose cone has at most this many 64x64 multiplications")
     a = ap.parse_args()
-    res = generate(a.repo, a.budget, a.z3_timeout, a.workers, a.seed, log=lambda *x: print(*x, file=sys.stderr, flush=True), prev=a.prev, max_muls=a.max_muls)
+    res = generate(a.repo, a.budget, a.z3_timeout, a.workers, a.seed, log=lambda *x: print(*x, file=sys.stderr, flush=True), prev=a.prev, max_muls=a.max_muls, kinds=set(a.kinds.split(',')) if a.kinds else None, only=a.only or None)
     json.dump(res, open(a.out, "w"), indent=0)
     tot = {"targets": 0, "by_random": 0, "by_z3": 0, "unreached": 0}
     for k, st in sorted(res["stats"].items()):
